@@ -159,7 +159,8 @@ theorem wtdDelete_onlyAt (E : Env) (fs : FS) (l : Loc) : OnlyAt l fs (wtdDelete 
   unfold wtdDelete
   split
   · exact OnlyAt.refl _ _
-  · split <;> first | exact OnlyAt.refl _ _ | exact OnlyAt.set _ _ _
+  · split <;> first | exact OnlyAt.refl _ _ | exact OnlyAt.set _ _ _ |
+      (split <;> first | exact OnlyAt.refl _ _ | exact OnlyAt.set _ _ _)
 
 /-- after `write_to_disk(f, delete=True)` the location is what it was, or gone -/
 theorem wtdDelete_post (E : Env) (fs : FS) (l : Loc) :
@@ -170,7 +171,9 @@ theorem wtdDelete_post (E : Env) (fs : FS) (l : Loc) :
   · split
     · exact Or.inl rfl
     · exact Or.inl rfl
-    · right; simp [look]
+    · split
+      · exact Or.inl rfl
+      · right; simp [look]
 
 /-- if it returned, the location is gone -/
 theorem wtdDelete_ok (E : Env) (fs : FS) (l : Loc) (h : (wtdDelete E fs l).2 = true) :
@@ -182,7 +185,10 @@ theorem wtdDelete_ok (E : Env) (fs : FS) (l : Loc) (h : (wtdDelete E fs l).2 = t
     · rename_i hn; simp [look, hn]
     · rename_i hn; simp [hn] at h
       split at h <;> simp_all
-    · simp [look]
+    · by_cases hdn : E.denied l = true
+      · simp [hdn] at h
+        split at h <;> simp_all
+      · simp [hdn, look]
 
 theorem writeMarker_onlyAt (E : Env) (c : Str) (fs : FS) (l : Loc) : OnlyAt l fs (writeMarker E c fs l).1 := by
   unfold writeMarker look wtdWrite
@@ -415,18 +421,22 @@ theorem genId_holds (E : Env) (fs : FS) (new : Bool) (r : Option Str) (f x : Str
 
 /-! ### error branches, histories -/
 
-theorem wtdDelete_false (E : Env) (fs : FS) (l : Loc) (h : (wtdDelete E fs l).2 = false) : look E fs l = .dir := by
+/-- `write_to_disk(f, delete=True)` raises only for a directory or a removal that is denied (errno other than ENOENT) -/
+theorem wtdDelete_false (E : Env) (fs : FS) (l : Loc) (h : (wtdDelete E fs l).2 = false) :
+    look E fs l = .dir ∨ E.denied l = true := by
   unfold wtdDelete at h
   split at h
   · cases h
   · rename_i hd; simp at hd
     split at h
     · cases h
-    · rename_i hn; simp [look, hd, hn]
-    · cases h
+    · rename_i hn; left; simp [look, hd, hn]
+    · by_cases hdn : E.denied l = true
+      · exact Or.inr hdn
+      · simp [hdn] at h
 
 theorem deleteMarkers_false (E : Env) (mk : Bool → Loc) (fs : FS) (hne : mk true ≠ mk false)
-    (h : (deleteMarkers E mk fs).2 = false) : ∃ d, look E fs (mk d) = .dir := by
+    (h : (deleteMarkers E mk fs).2 = false) : ∃ d, look E fs (mk d) = .dir ∨ E.denied (mk d) = true := by
   unfold deleteMarkers forDirs at h
   simp only at h
   split at h
